@@ -283,8 +283,14 @@ class SimSearcher(_Tap):
         def thunk():
             if spec.get('flavour') == 'realstub':
                 return self._real.fileExists(mibname, mtime, rebuild=rebuild)
-            if rebuild and spec.get('flavour', 'file') == 'file':
+            if rebuild and spec.get('flavour', 'file') in ('file', 'age'):
                 return None
+            if spec.get('flavour') == 'age':
+                # like the file searchers: a stored copy with a time stamp; up to date iff it is not older than what it is compared with
+                have = spec.get('have', {}).get(mibname)
+                if have is not None and have >= mtime:
+                    raise error.PySmiFileNotModifiedError('simulated: stored %s (%s) is not older than %s' % (mibname, have, mtime), searcher=self)
+                raise error.PySmiFileNotFoundError('simulated: no up-to-date compiled %s' % mibname, searcher=self)
             a = spec.get('answers', {}).get(mibname, spec.get('default', 'stale'))
             if a == 'fresh':
                 raise error.PySmiFileNotModifiedError('simulated: %s is up to date' % mibname, searcher=self)
@@ -977,6 +983,9 @@ def gen_world(rng, tier, focus='C07'):
         if fl == 'realstub' and rng.random() < 0.3:
             ans = {'Q-' + rng.choice(names): 'fresh'}     # exactly one listed name, of which a real module name is a substring
         searchers.append({'flavour': fl, 'answers': ans})
+        if focus in ('C19', 'C10') and rng.random() < 0.3:
+            # a searcher that compares time stamps: its stored copies may be newer than a borrower's copy yet older than the source
+            searchers[-1] = {'flavour': 'age', 'answers': {}, 'have': dict((m, core.EPOCH0 - rng.choice([5, 100, 7000, 20000])) for m in allnames if rng.random() < 0.5)}
     scn['searchers'] = searchers
     # borrowers
     nb = rng.choice([0, 0, 0, 1, 2, 3]) if focus not in ('C19',) else rng.choice([1, 2, 2, 3])
